@@ -58,7 +58,26 @@ def rand_shape(rng, simple=False, span=100, sizes=(20, 240)):
     return {"kind": "contour", "segs": segs}
 
 
-def rand_pair(rng, i, simple=False, span=100, sizes=(20, 240)):
+def lobe_box(rng, span=100):
+    """a box with a large teardrop lobe growing out of a narrow gap (0.5 .. 1.5 units) in its top edge: the lobe is one cubic whose
+    end points are closer together than the clipping code's flattening step while its arc is hundreds of units long"""
+    o = (float(rng.randint(-span, span)), float(rng.randint(-span, span)))
+    w, h = float(rng.randint(80, 240)), float(rng.randint(40, 120))
+    g = rng.choice([0.5, 1.0, 1.5])
+    x = float(rng.randint(20, int(w) - 20))
+    dx1, dx2, dy = float(rng.randint(150, 400)), float(rng.randint(150, 400)), float(rng.randint(150, 300))
+    P = lambda a, b: (o[0] + a, o[1] + b)
+    segs = [[P(0, 0), P(w, 0)], [P(w, 0), P(w, h)], [P(w, h), P(x + g, h)],
+            [P(x + g, h), P(x + g + dx1, h + dy), P(x - dx2, h + dy), P(x, h)],
+            [P(x, h), P(0, h)], [P(0, h), P(0, 0)]]
+    return {"kind": "contour", "segs": segs}
+
+
+def rand_pair(rng, i, simple=False, span=100, sizes=(20, 240), lobes=False):
+    if lobes and i % 6 == 5:
+        a = lobe_box(rng, span)
+        b = rand_shape(rng, simple=True, span=span, sizes=(200, 700)) if rng.random() < 0.6 else {"kind": "rect", "w": 2000.0, "h": 2000.0, "o": (0.0, 0.0)}
+        return (a, b) if rng.random() < 0.7 else (b, a)
     """pairs of shapes by configuration family: random placement (crossing / disjoint / touching by chance), B nested strictly
     inside A (results with holes), a crossing next to an on-curve node of A (split-window edge), A enclosing a pocket with B"""
     fam = i % 5
